@@ -10,7 +10,8 @@
 (* object.                                                                   *)
 (***************************************************************************)
 EXTENDS EapLife, KeyLife, Pools
-CONSTANTS MaxOps
+CONSTANTS MaxOps,
+          FromWire     \* TRUE: the object is not built but decoded from a packet whose attributes are NOT in ascending order
 VARIABLES attrs, ops, done
 
 V(t, n, s) == [t |-> t, v |-> D(n, s)]
@@ -24,7 +25,11 @@ Put(as, a) == AttrMap(Append(as, a), << >>)
 Key == FillT("seeded", 32, 5)
 Pkt(as) == Aka(2, 33, 1, as)
 
-Init == attrs = << >> /\ ops = << >> /\ done = FALSE
+\* the received packet: RAND, AUTN, KDF, KDF_INPUT, MAC -- the order servers commonly use (KDF 24 before KDF_INPUT 23, MAC 11 last)
+WireAttrs == << V(AT_RAND, 16, 21), V(AT_AUTN, 16, 22), V(AT_KDF, 2, 23), V(AT_KDF_INPUT, 7, 24), V(AT_MAC, 16, 25) >>
+WirePkt == [code |-> 2, id |-> 33, m |-> "aka", sub |-> 1, rsv |-> 0, attrs |-> [i \in 1..Len(WireAttrs) |-> AkaAttrPlain(WireAttrs[i])]]
+Attrs0 == IF FromWire THEN AttrMap(WireAttrs, << >>) ELSE << >>
+Init == attrs = Attrs0 /\ ops = << >> /\ done = FALSE
 Call(c) == /\ ~done /\ Len(ops) < MaxOps /\ ops' = Append(ops, c) /\ done' = FALSE
            /\ attrs' = CASE c.op = "set" -> IF Accepted(c.a) THEN Put(attrs, c.a) ELSE attrs
                          [] c.op = "calc" -> Put(attrs, [t |-> AT_MAC, v |-> Zeros(16)])       \* the computation leaves AT_MAC zeroed
@@ -45,8 +50,9 @@ Steps(s, as) ==
               << Step("aka_calcmac", "C15", FALSE, [key |-> Key, site |-> "object-history"],
                       [panic |-> FALSE, err |-> FALSE, mac |-> Slice(Hmac("sha256", Key, Lit(EncEap(Pkt(as2)))), 0, 16)]) >> \o Steps(Tail(s), as2)
 
-HistVector(s) == Vector("akahist", << Step("aka_new", "C14", FALSE, [code |-> 2, id |-> 33, sub |-> 1], [panic |-> FALSE, attrs |-> << >>]) >>
-                                   \o Steps(s, << >>)
+HistVector(s) == Vector("akahist", << IF FromWire THEN Step("aka_load", "C14", FALSE, [wire |-> EncEapW(WirePkt)], [panic |-> FALSE, err |-> FALSE, attrs |-> Attrs0])
+                                                      ELSE Step("aka_new", "C14", FALSE, [code |-> 2, id |-> 33, sub |-> 1], [panic |-> FALSE, attrs |-> << >>]) >>
+                                   \o Steps(s, Attrs0)
                                    \o << Step("aka_marshal", "C14", FALSE, [x |-> 0], [panic |-> FALSE, err |-> FALSE, wire |-> EncEap(Pkt(attrs)), attrs |-> attrs]) >>)
 Emit == done => PrintT(ToJson(HistVector(ops)))
 Sound == done => EapEncodable(Pkt(attrs))
